@@ -327,7 +327,14 @@ func computeFlameGraphDiff(t1, t2 *Tree) *prof.FlameGraphDiff {
 	xRightOffsets := []int64{0}
 	nameLocationCache := make(map[string]int64)
 
-	for len(leftNodes) > 0 && len(rightNodes) > 0 {
+	// One bar per node of the merged trees, two where an id is shared by two parents. Rows that form a cycle would
+	// be walked forever (BFS has its reviewed map for that): the walk ends after that many bars.
+	budget := 2
+	for _, children := range t1.Nodes {
+		budget += 2 * len(children)
+	}
+
+	for ; len(leftNodes) > 0 && len(rightNodes) > 0 && budget > 0; budget-- {
 		left := leftNodes[0]
 		right := rightNodes[0]
 		leftNodes = leftNodes[1:]
